@@ -80,6 +80,13 @@ class Big:
     info: Any = None
 
 
+@dataclass(frozen=True)
+class Avoid:
+    """L(node) minus every word that contains `word` as a substring (free text that does not mention a keyword)"""
+    node: Any
+    word: str
+
+
 class SymBound:
     """symbolic quantifier bound (hashable wrapper around a z3 term / SymInt)"""
 
@@ -124,6 +131,8 @@ def show(n: Any) -> str:
         return ("(" if n.cap else "(?:") + show(n.node) + ")"
     if isinstance(n, Look):
         return ("(?!" if n.neg else "(?=") + show(n.node) + ")"
+    if isinstance(n, Avoid):
+        return f"({show(n.node)} without {n.word!r})"
     if isinstance(n, Big):
         return f"‹big {n.sep!r}.join({show(n.template)} for x in {n.seq})›"
     return repr(n)
@@ -466,7 +475,7 @@ def walk(n: Any):
     if isinstance(n, (Cat, Alt)):
         for x in n.items:
             yield from walk(x)
-    elif isinstance(n, (Rep, Grp, Look)):
+    elif isinstance(n, (Rep, Grp, Look, Avoid)):
         yield from walk(n.node)
     elif isinstance(n, Big):
         yield from walk(n.template)
@@ -645,9 +654,64 @@ def build_nfa(ast: Any, look_as_letter: bool = True) -> NFA:
                 nfa.e(e, b)
                 cur = e
             return a, b
+        if isinstance(r, Avoid):
+            return avoid_product(r)
         if isinstance(r, Big):
             raise Unsupported("big operator must be abstracted before automaton construction")
         raise Unsupported(f"node {type(r).__name__}")
+
+    def avoid_product(r: Avoid) -> Tuple[int, int]:
+        """product of the NFA of r.node with the KMP automaton of r.word (dead on a full occurrence)"""
+        inner = build_nfa(r.node)
+        w = r.word
+        wchars = frozenset(w)
+
+        def kstep(k: int, ch: str) -> int:
+            t = w[:k] + ch
+            while t and not w.startswith(t):
+                t = t[1:]
+            return len(t)
+        ids: Dict[Tuple[int, int], int] = {}
+
+        def sid(q: int, k: int) -> int:
+            key = (q, k)
+            if key not in ids:
+                ids[key] = nfa.new()
+            return ids[key]
+        start = sid(inner.start, 0)
+        end = nfa.new()
+        work = [(inner.start, 0)]
+        seen = {(inner.start, 0)}
+        while work:
+            q, k = work.pop()
+            a = sid(q, k)
+            if q == inner.final:
+                nfa.e(a, end)
+            for q2 in inner.eps.get(q, ()):
+                nfa.e(a, sid(q2, k))
+                if (q2, k) not in seen:
+                    seen.add((q2, k)); work.append((q2, k))
+            for lab, q2 in inner.tr.get(q, ()):
+                if isinstance(lab, Sym):
+                    nfa.t(a, lab, sid(q2, k))
+                    if (q2, k) not in seen:
+                        seen.add((q2, k)); work.append((q2, k))
+                    continue
+                # characters of the word individually, the others together
+                for ch in wchars:
+                    if lab.has(ch):
+                        k2 = kstep(k, ch)
+                        if k2 == len(w):
+                            continue          # the word would be completed: dead
+                        nfa.t(a, Set(frozenset(ch)), sid(q2, k2))
+                        if (q2, k2) not in seen:
+                            seen.add((q2, k2)); work.append((q2, k2))
+                rest = Set(lab.chars | wchars, True) if lab.neg else Set(lab.chars - wchars)
+                if rest.neg or rest.chars:
+                    nfa.t(a, rest, sid(q2, 0))
+                    if (q2, 0) not in seen:
+                        seen.add((q2, 0)); work.append((q2, 0))
+        return start, end
 
     s, f = go(ast)
     nfa.start, nfa.final = s, f
